@@ -375,6 +375,13 @@ def generate(workdir, prop, tier, rng):
     trans += g
     add(b, 500 if tier == "quick" else 12000)
     scen = [instrument(prop, x, i, rng) for i, x in enumerate(behs)]
+    if prop == "C15":
+        from merge_family import rowapi_scenarios
+        ra, d, g, note = rowapi_scenarios(workdir, tier, rng)
+        notes.append(note)
+        states += d
+        trans += g
+        scen += ra
     return scen, states, trans, notes
 
 
